@@ -21,6 +21,7 @@ def dispatch (line : String) : String :=
   | "truth" :: args => Driver.Expr.handleTruth (Driver.Expr.tokenize (" ".intercalate args))
   | "meta" :: args => Driver.Expr.handleMeta (Driver.Expr.tokenize (" ".intercalate args))
   | "ac" :: args => Driver.Expr.handleAc (Driver.Expr.tokenize (" ".intercalate args))
+  | "bits" :: args => Driver.Expr.handleBits (Driver.Expr.tokenize (" ".intercalate args))
   | "rules" :: args => Driver.Expr.handleRules (Driver.Expr.tokenize (" ".intercalate args))
   | _ => "bad-op"
 
